@@ -28,7 +28,7 @@ SHAPES = {
     8: [[D("d", *[F("e%d" % i, "c%d" % i) for i in range(7)])]],
 }
 
-POINT_PC = {"dircache.Store.marked": "marked", "dircache.Store.removedOld": "removed", "dircache.Store.beforeRename": "sized",
+POINT_PC = {"dircache.Store.marked": "marked", "dircache.Store.removedOld": "oldAside", "dircache.Store.beforeRename": "sized",
             "dircache.Store.renamed": "renamed"}
 
 CLAIM12 = dict(
